@@ -223,7 +223,9 @@ def pipeflow_case(draw):
     hot = draw(st.lists(st.sampled_from(keys), unique=True, min_size=1, max_size=5))
     user = draw(layer(hot + ["iter", "max_iter_hyd", "mode", "friction_model"], 5))
     call = draw(layer(hot + ["iter", "max_iter_hyd", "mode", "friction_model"], 5))
-    return {"kind": "pipeflow", "user": user, "call": call, "net": draw(st.integers(0, 2))}
+    # an earlier calculation on the same net object with other call options: what was in force then must not linger
+    before = draw(layer(hot + ["mode", "friction_model", "ambient_temperature"], 4)) if draw(st.booleans()) else None
+    return {"kind": "pipeflow", "user": user, "call": call, "net": draw(st.integers(0, 2)), "before": before}
 
 
 def small_net(k):
@@ -233,7 +235,7 @@ def small_net(k):
     pp.create_ext_grid(net, j[0], 5.0, 350.0, type="pt")
     pp.create_pipe_from_parameters(net, j[0], j[1], 0.3, 80.0, k_mm=0.2, u_w_per_m2k=5.0, text_k=283.0, sections=2)
     pp.create_pipe_from_parameters(net, j[1], j[2], 0.2, 50.0, k_mm=0.1, u_w_per_m2k=2.0, text_k=283.0)
-    pp.create_pipe_from_parameters(net, j[1], j[3], 0.4, 50.0, k_mm=0.1, u_w_per_m2k=2.0, text_k=283.0)
+    pp.create_pipe_from_parameters(net, j[1], j[3], 0.4, 50.0, k_mm=0.1, u_w_per_m2k=2.0)    # ambient temperature option in force
     pp.create_sink(net, j[2], 0.4 + 0.2 * k)
     pp.create_sink(net, j[3], 0.3)
     if k == 1:
@@ -260,10 +262,13 @@ def eval_pipeflow(case):
         ps.set_user_pf_options(net, **copy.deepcopy(user))
     d0 = copy.deepcopy(ps.default_options)
     exp = ref_merge(d0, user, call, "water")
+    if case.get("before") is not None:
+        _run(net, **copy.deepcopy(case["before"]))
     st1 = _run(net, **copy.deepcopy(call))
     fnd = []
     got = dict(net["_options"])
     skip = {"alpha"} if exp["nonlinear_method"] == "automatic" else set()
+    skip.add("hyd_flag")      # pipeflow's own bookkeeping in user_pf_options (see C12), carried into _options by a second call
     diff = {k: (repr(got.get(k, "<absent>")), repr(exp.get(k, "<absent>"))) for k in set(got) | set(exp)
             if k not in skip and got.get(k, "<absent>") != exp.get(k, "<absent>")}
     if diff:
@@ -294,7 +299,7 @@ def eval_pipeflow(case):
                 fnd.append(Finding("observable", "C14.observable.iterations", {"stage": stage, "iterations": it, "limit": mx}))
     both = set(user) & set(call)
     allk = set(user) | set(call)
-    labels = {"pipeflow", "status:" + st1, "mode:" + str(exp["mode"])}
+    labels = {"pipeflow", "status:" + st1, "mode:" + str(exp["mode"])} | ({"after_earlier_run_with_other_options"} if case.get("before") is not None else set())
     if both:
         labels.add("both_layers")
     return Outcome(findings=fnd, labels=labels, nontrivial=bool(both) or ("iter" in allk and bool(allk & set(STAGES))),
